@@ -819,6 +819,9 @@ impl C29 {
                                 if now.is_init() {
                                     return fail(i, "load-reserved-initialised", format!("file {k}: reserved word x{a:04X} is reported initialised after the load"));
                                 }
+                                if now.verif_init_mask() != 0 {
+                                    return fail(i, "load-reserved-partly-initialised", format!("file {k}: reserved word x{a:04X} keeps initialisation mask x{:04X} after the load (was x{:04X} before)", now.verif_init_mask(), before[a as usize].verif_init_mask()));
+                                }
                             }
                             None => {
                                 if now != before[a as usize] {
@@ -860,7 +863,7 @@ impl C29 {
                         let now = sim.mem[x];
                         let ok = match r.image.get(&x) {
                             Some(Some(v)) => now.get() == *v && now.is_init(),
-                            Some(None) => !now.is_init(),
+                            Some(None) => now.verif_init_mask() == 0,
                             None => now == before[x as usize],
                         };
                         if !ok {
@@ -868,6 +871,23 @@ impl C29 {
                         }
                     }
                     fp.add(0x300 + a as u64 * 8 + b as u64);
+                }
+                4 => {
+                    // a word whose bits are only partly known (what AND with a constant leaves behind)
+                    // sitting where a later load reserves space
+                    let k = *arg as usize % files.len();
+                    let reserved: Vec<u16> = files[k].obj.image.iter().filter(|(_, v)| v.is_none()).map(|(a, _)| *a).collect();
+                    if !reserved.is_empty() {
+                        let a = reserved[(*arg as usize / 7) % reserved.len()];
+                        let mut m = (*arg >> 16) as u16;
+                        if m == 0 || m == 0xFFFF {
+                            m = 0x0FF0;
+                        }
+                        let mut fill = (*arg as u16) | 1;
+                        sim.mem[a] = Word::new_uninit(&mut fill) & Word::new_init(m);
+                        out.bump("fired.partial-word-under-reserved");
+                    }
+                    fp.add(0x400);
                 }
                 1 => {
                     sim.pc = 0x3000 + (*arg as u16 & 0xFF);
@@ -920,6 +940,7 @@ impl Check for C29 {
                 0..=2 => (0u8, r.below(nf as u64) as u32),
                 3 => (1u8, r.below(4000) as u32),
                 4 if nf >= 2 => (3u8, r.below(1000) as u32),
+                5 => (4u8, (r.u16() as u32) << 16 | r.below(5000) as u32),
                 _ => (2u8, (r.u16() as u32) << 16 | r.u16() as u32),
             });
         }
